@@ -229,6 +229,9 @@ impl Engine for TwinSim {
                 c.w_log = 6;
                 c.w_storage = 14;
                 c.w_ext = 8;
+                // precompiles are per-spec state of the instance too (prices change between
+                // specs that share the address set)
+                c.w_precompile = 12;
             };
         }
         let mut world = gen_world(rng, &k);
